@@ -1,4 +1,6 @@
 import NimaVerif.Lemmas.Trivia
+import NimaVerif.Lemmas.FragNFParse
+import NimaVerif.Lemmas.FragFlat
 import NimaVerif.Gen.Trivia
 /-!
 # C18 — rebuilt text is in the formatter's spacing normal form (trivia algebra)
@@ -252,5 +254,104 @@ example : formatTrivia sampleTrivia 2 = "\n# c\n  /* a\n     b */\n".toList := b
 example : triviaPieces 2 sampleTrivia =
     [.ws "\n".toList, .ws [], .cmt "# c".toList, .ws "\n".toList,
      .ws "  ".toList, .cmt "/* a\n     b */".toList, .ws "\n".toList] := by decide
+
+section Fragment
+open Nima.Frag
+
+/-! ## Container fragment (L3–L5): the output of the whole round trip is in spacing normal form
+
+Same models as `Props/C01.lean` (section Fragment). `summ` reads a piece list as: leading
+whitespace, first token, "every whitespace run between two neighbouring tokens/comments is an
+acceptable separator for the second one" (`sepOk`: `""`, `" "`, or one line break / one blank line
+followed by an indentation run; nothing at all in front of `;`), trailing whitespace. -/
+
+/-- SPACING NORMAL FORM. For every well-formed file of the fragment in which no one-line container
+    holds a comment in front of an item (`Src.beforeFlatB`: the items of a container without a line
+    break have empty leading trivia; see `cex_block_comment_after_opener`), the rebuilt file has
+    no whitespace before its first token, every separator is in the formatter's normal form, `;`
+    is attached, and the file ends with at most one blank line. -/
+theorem frag_spacing_nf (f : File) (s : Src) (hwf : f.wf = true) (_hws : f.noLeadingWs = true)
+    (hp : f.parse = .ok s) (hclean : s.beforeFlatB = true) : (summ s.rebuildP).fileOk = true :=
+  file_nf_flat f s hwf hp hclean
+
+/-- the same with the exclusion as the render-side induction uses it (`inlineCleanB` additionally
+    asks that every item's trailing trivia in a one-line container ends with a comment, which
+    `Lemmas/FragFlat.lean` proves for everything `fromCst` builds) -/
+theorem frag_spacing_nf_clean (f : File) (s : Src) (hwf : f.wf = true) (_hws : f.noLeadingWs = true)
+    (hp : f.parse = .ok s) (hclean : s.inlineCleanB = true) : (summ s.rebuildP).fileOk = true :=
+  file_nf f s hwf hp (src_inlineClean hclean)
+
+/-- what `fileOk` says, in terms of the pieces: for any two neighbouring tokens/comments `p`, `q`
+    of the output with only whitespace pieces `W` between them, `concat W` is a `NormalSep`, and it
+    is empty when `q` is `;`; nothing is written before the first token; the trailing whitespace is
+    `""`, one line break or one blank line. -/
+theorem frag_spacing_meaning (ps : List FP) (h : (summ ps).fileOk = true) :
+    (∀ (pre W post : List FP) (p q : FP), ps = pre ++ [p] ++ W ++ q :: post → p.isWs = false → q.isWs = false →
+        W.all FP.isWs = true → NormalSep (concat W) ∧ (q = .tok [';'] → concat W = [])) ∧
+    (∀ (W post : List FP) (q : FP), ps = W ++ q :: post → W.all FP.isWs = true → q.isWs = false → concat W = []) := by
+  cases hs : summ ps with
+  | blank w =>
+    refine ⟨fun pre W post p q hps hp _ _ => ?_, fun W post q hps hW hq => ?_⟩
+    · exfalso
+      obtain ⟨l1, f1, i1, h1⟩ := summ_lexLast pre p hp
+      rw [hps, List.append_assoc, summ_append, h1] at hs
+      cases hx : summ (W ++ q :: post) <;> rw [hx] at hs <;> cases hs
+    · exfalso
+      obtain ⟨x, i2, t2, _, h2⟩ := summ_lexHead q hq post
+      rw [hps, summ_append, summ_allWs W hW, h2] at hs
+      cases hs
+  | lexy l f i t =>
+    rw [hs] at h
+    simp only [Summ.fileOk, Bool.and_eq_true, List.isEmpty_iff] at h
+    obtain ⟨⟨hl, hi⟩, _⟩ := h
+    subst hl; subst hi
+    refine ⟨fun pre W post p q hps hp hq hW => ?_, fun W post q hps hW hq => summ_lead_spec hs W post q hps hW hq⟩
+    obtain ⟨x, hx, hsep⟩ := summ_inner_spec hs pre W post p q hps hp hq hW
+    unfold sepOk at hsep
+    simp only [Bool.and_eq_true, Bool.or_eq_true, bne_iff_ne, ne_eq, List.isEmpty_iff] at hsep
+    refine ⟨(normalSep_iff _).mpr hsep.1, fun hq' => ?_⟩
+    subst hq'
+    simp only [FP.lex?] at hx; injection hx with hx; subst hx
+    rcases hsep.2 with h1 | h1
+    · exact absurd rfl h1
+    · exact h1
+
+/-- full statement (false): without the exclusion -/
+def frag_spacing_nf_full : Prop :=
+  ∀ (f : File) (s : Src), f.wf = true → f.noLeadingWs = true → f.parse = .ok s → (summ s.rebuildP).fileOk = true
+
+/-- `{ /* c */ a = 1; }`: the comment after `{` becomes leading trivia of the first binding, the set
+    stays on one line (no line break in the source), and the binding is written `inline` after
+    its own-line rendering of the comment: `{   /* c */⏎a = 1; }` — three spaces, and the binding
+    at column 0 (open finding `C18-spacing-space-run-attrset_expression`;
+    `expressions/trivia.py:parse_delimited_sequence` / `set.py` one-line branch). -/
+def openerCommentFile : File :=
+  { items := .elem [] (.set false [] (.cmt " ".toList "/* c */".toList
+      (.bind " ".toList "a".toList [] " ".toList [] " ".toList (.leaf .int "1".toList) [] [] .nil)) " ".toList) .nil,
+    endGap := [] }
+
+theorem cex_block_comment_after_opener : ¬ frag_spacing_nf_full := by
+  intro h
+  have := h openerCommentFile _ (by decide) (by decide) rfl
+  revert this; decide
+
+example : openerCommentFile.flatten = "{ /* c */ a = 1; }".toList := by decide
+example : openerCommentFile.roundtrip = .ok "{   /* c */\na = 1; }".toList := by decide
+example : (match openerCommentFile.parse with | .ok s => s.beforeFlatB | _ => true) = false := by decide
+
+/-- a file with comments in many gaps that satisfies the hypotheses -/
+def fragSample : File :=
+  { items := .cmt [] "# h".toList (.elem "\n\n\n".toList
+      (.set false [] (.bind "\n\t".toList "a".toList [(" ".toList, "/* n */".toList)] "  ".toList
+          [] "\n\n      ".toList (.list (.elem " ".toList (.leaf .int "1".toList) .nil) "\t".toList) [] " ".toList
+        (.cmt " ".toList "# e".toList (.cmt "\n\n\n".toList "# o".toList .nil))) "\n\n\n".toList) .nil),
+    endGap := "\n\n\n".toList }
+
+example : fragSample.flatten = "# h\n\n\n{\n\ta /* n */  =\n\n      [ 1\t] ; # e\n\n\n# o\n\n\n}\n\n\n".toList := by decide
+example : fragSample.wf = true ∧ fragSample.noLeadingWs = true := by decide
+example : (match fragSample.parse with | .ok s => s.beforeFlatB | _ => false) = true := by decide
+example : fragSample.roundtrip = .ok "# h\n\n{\n  a =\n      /* n */\n\n      [ 1 ]; # e\n\n  # o\n\n}\n\n".toList := by decide
+
+end Fragment
 
 end Nima.C18
